@@ -246,6 +246,11 @@ func TestSeedInvalidMnemonic(t *testing.T) {
 				words[p] = alt
 				return invCase{lang, words, "denormalized-word"}
 			}
+			if h.Pick(t, "otherlist", 12, 1) == 1 {
+				// a sentence that is perfectly valid, checksum and all, in a registered list that is not the
+				// selected one
+				return invCase{lang, mgen.ValidSentence(t, other), "valid-in-the-other-list"}
+			}
 			if h.Pick(t, "impostor", 12, 1) == 1 {
 				if w, ok := mgen.ImpostorSentence(t, l, lang); ok {
 					return invCase{lang, w, "hash-impostor-word"}
@@ -292,8 +297,8 @@ func TestSeedInvalidMnemonic(t *testing.T) {
 			}
 			return info, nil
 		},
-		Require: []string{"invalid/checksum-bit-flip/long", "invalid/checksum-bit-flip", "invalid/last-word/long", "invalid/drop", "invalid/foreign-word", "invalid/hash-impostor-word"},
-		Rule:    "valid sentences of every size (12..48 words, both lists) with one or two mutations (other word, last word, single checksum-bit flip, single bit flip, foreign-list word, malformed word, drop, duplicate, swap), or with one word replaced by a non-list string of the same 32-bit FNV hash: whenever the reference rejects the sentence MnemonicToSeed must return an error and no seed; all non-trivial; distinct by case",
+		Require: []string{"invalid/checksum-bit-flip/long", "invalid/checksum-bit-flip", "invalid/last-word/long", "invalid/drop", "invalid/foreign-word", "invalid/hash-impostor-word", "invalid/valid-in-the-other-list"},
+		Rule:    "valid sentences of every size (12..48 words, both lists) with one or two mutations (other word, last word, single checksum-bit flip, single bit flip, foreign-list word, malformed word, drop, duplicate, swap), or with one word replaced by a non-list string of the same 32-bit FNV hash, or valid sentences of the registered list that is not selected: whenever the reference rejects the sentence MnemonicToSeed must return an error and no seed; all non-trivial; distinct by case",
 	})
 }
 
